@@ -632,6 +632,23 @@ def r_replace(doc, op):
   return ['ReplaceTableData', t['tableId'], list(range(1, n + 1)), cv]
 
 
+def r_rmref(doc, op):
+  """Remove a column that a formula of the same table mentions (leaving a dangling name behind)."""
+  import re as _re
+  t = _tables(doc, op['a'], include_summary=False)
+  if not t: return None
+  cols = _cols(doc, t['id'])
+  used = []
+  for c in cols:
+    for f in cols:
+      if f['id'] != c['id'] and f['formula'] and _re.search(r'(\$|rec\.)%s\b' % _re.escape(c['colId']), f['formula']):
+        if c not in used:
+          used.append(c)
+  if not used: return None
+  c = used[int(op['b']) % len(used)]
+  return ['RemoveColumn', t['tableId'], c['colId']]
+
+
 def r_revive(doc, op):
   """Give some column the name of a column that formulas of the document mention but that no longer exists
   (rename another column to it, or add it)."""
@@ -642,10 +659,17 @@ def r_revive(doc, op):
   names = set(c['colId'] for c in cols)
   mentioned = []
   for c in doc.columns_meta():
-    if c['formula']:
-      for m in _re.finditer(r'(?:\$|\.|rec\.|\(|, )([A-Za-z_]\w*)(?==|\b)', c['formula']):
+    if not c['formula']:
+      continue
+    pats = []
+    if c['parentId'] == t['id']:
+      pats += [r'\$([A-Za-z_]\w*)', r'\brec\.([A-Za-z_]\w*)']
+    # lookups / .all comprehensions into this table from anywhere
+    pats += [r'\b%s\.lookup(?:Records|One)\(([A-Za-z_]\w*)=' % _re.escape(t['tableId'])]
+    for pat in pats:
+      for m in _re.finditer(pat, c['formula']):
         n = m.group(1)
-        if n not in names and n not in mentioned and n[0].isalpha() and n not in ('id', 'lookupRecords', 'lookupOne', 'all', 'find'):
+        if n not in names and n not in mentioned and n != 'id':
           mentioned.append(n)
   mentioned = [n for n in mentioned if _re.match(r'^[A-Za-z][A-Za-z0-9_]*$', n) and len(n) <= 8]
   if not mentioned or not cols: return None
@@ -688,7 +712,7 @@ RESOLVERS = {
   'reverse': r_reverse, 'meta_col': r_meta_col, 'meta_table': r_meta_table, 'meta_rmcol': r_meta_rmcol,
   'meta_rmtable': r_meta_rmtable, 'meta_rmfield': r_meta_rmfield, 'rawtitle': r_rawtitle,
   'displaycol': r_displaycol, 'rule': r_rule, 'trigger': r_trigger, 'choices': r_choices,
-  'copyfrom': r_copyfrom, 'bad': r_bad, 'revive': r_revive,
+  'copyfrom': r_copyfrom, 'bad': r_bad, 'revive': r_revive, 'rmref': r_rmref,
 }
 
 SCHEMA_KINDS = set(RESOLVERS) - {'add', 'update', 'remove', 'replace', 'bad'}
@@ -736,7 +760,7 @@ def op_strategy(kind):
     base.update(b=_sel, c=_sel, t=_mask, f=fspec())
   elif kind in ('choices',):
     base.update(b=_sel, c=_sel, t=_sel)
-  elif kind in ('copyfrom', 'bad', 'revive'):
+  elif kind in ('copyfrom', 'bad', 'revive', 'rmref'):
     base.update(b=st.integers(0, 11), c=_sel)
   return st.fixed_dictionaries(base)
 
@@ -753,8 +777,8 @@ PROFILES = {
   },
   'formula': {
     'add': 12, 'update': 14, 'remove': 5,
-    'addtable': 3, 'addcol': 4, 'addfcol': 12, 'addref': 5, 'rmcol': 2, 'rencol': 3, 'modtype': 3,
-    'modformula': 6, 'toggle': 2, 'rmtable': 1, 'rentable': 1, 'summary': 4, 'summaryupd': 2, 'revive': 3,
+    'addtable': 3, 'addcol': 4, 'addfcol': 12, 'addref': 5, 'rmcol': 4, 'rencol': 3, 'modtype': 3,
+    'modformula': 6, 'toggle': 2, 'rmtable': 1, 'rentable': 1, 'summary': 4, 'summaryupd': 2, 'revive': 7, 'rmref': 5,
     'reverse': 1, 'meta_col': 2, 'displaycol': 1, 'choices': 1,
   },
   'schema': {
